@@ -226,11 +226,20 @@ func runC15(e *Engine, r *Report) {
 			if len(ts.Instrs) == 0 {
 				return
 			}
-			res := e.findPath(record, ts.Instrs[0], func(x ssa.Instruction) bool { return x == w.Instr }, func(x ssa.Instruction) bool {
+			// ... of the directory of the *tracked* (old) stream: the temp dir name
+			// contains the sender, so the incoming chunk names a different one
+			// when another sender takes the key over
+			firstF := e.Field("internal/transport", "tracked", "first")
+			rmOld := func(x ssa.Instruction) bool {
 				c, ok := x.(*ssa.Call)
-				return ok && e.CallsTo(c, rmTemp)
-			}, nil)
-			if c, isC := ts.Instrs[0].(*ssa.Call); isC && e.CallsTo(c, rmTemp) {
+				if !ok || !e.CallsTo(c, rmTemp) {
+					return false
+				}
+				args := c.Call.Args
+				return firstF == nil || (len(args) > 0 && e.dependsOn(args[len(args)-1], func(v ssa.Value) bool { return fieldV(firstF)(v) }, 0))
+			}
+			res := e.findPath(record, ts.Instrs[0], func(x ssa.Instruction) bool { return x == w.Instr }, rmOld, nil)
+			if rmOld(ts.Instrs[0]) {
 				res.Found = false
 			}
 			if dominatesInstr(in, w.Instr) && !res.Found {
